@@ -13,6 +13,7 @@ If one of these observation points disappears the driver raises ObservationMissi
 Explorer actions (a scenario = config + list of actions):
   ('F', u[, hops])  feed the next event of object u into the watch-stream (hops = extra loop
                     iterations before the watcher sees it; no stepping is done by the action itself)
+  ('G', u, type[, hops])  feed an event of the given watch-event type (ADDED / MODIFIED / DELETED / None)
   ('B',)            feed a K8s BOOKMARK event (must be ignored by the watcher)
   ('D', u[, rv])    let the in-flight processor call of u return (rv = patched resourceVersion or None)
   ('V', u)          ... return a FRESH patched resourceVersion (arms the worker's expected_version when
@@ -48,13 +49,14 @@ class ObservationMissing(Exception):
 
 class Config:
     def __init__(self, limit: int | None = None, indexed: bool = False, nuids: int = 3,
-                 idle: float = 5.0, exit_timeout: float = 2.0, ctimeout: float = 0.0) -> None:
+                 idle: float = 5.0, exit_timeout: float = 2.0, ctimeout: float = 0.0, uidless: bool = False) -> None:
         self.limit, self.indexed, self.nuids = limit, indexed, nuids
         self.idle, self.exit_timeout, self.ctimeout = idle, exit_timeout, ctimeout
+        self.uidless = uidless     # objects without metadata.uid: the stream key falls back to kind/apiVersion/name/namespace
 
     def as_dict(self) -> dict:
         return dict(limit=self.limit, indexed=self.indexed, nuids=self.nuids, idle=self.idle,
-                    exit_timeout=self.exit_timeout, ctimeout=self.ctimeout)
+                    exit_timeout=self.exit_timeout, ctimeout=self.ctimeout, uidless=self.uidless)
 
     @staticmethod
     def from_dict(d: dict) -> 'Config':
@@ -114,6 +116,7 @@ class Driver:
         self.inflight: dict[int, list[dict]] = collections.defaultdict(list)
         self.ev_uid: dict[int, int] = {}
         self.ev_rv: dict[int, str | None] = {}
+        self.ev_type: dict[int, Any] = {}
         self.coro_uid: dict[int, int] = {}
         self.worker_coros: list[tuple[int, Any]] = []
         self.pending_get: tuple[int, int] | None = None
@@ -129,6 +132,7 @@ class Driver:
         self.quiescent_checks: list[dict] = []
         self.bookmarks = 0
         self.seq = 0
+        self.arrive_log: list[tuple[int, int]] = []    # (uid, value of the call sequence counter at the arrival)
         self.spawn_stats: dict[str, int] = collections.Counter()
         self.unechoed: dict[int, list[str]] = collections.defaultdict(list)   # patched versions returned, echo not yet fed
         self.cons_obs: dict[int, list[tuple]] = collections.defaultdict(list)   # C07: per uid worker-side observations
@@ -224,10 +228,10 @@ class Driver:
 
     # ------------------------------------------------------------------ identification
     def uid_of_key(self, key: Any) -> int:
-        try:
-            return int(str(key[1])[1:])
-        except Exception:
+        m = re.fullmatch(r'u(\d+)', str(key[1])) or re.search(r'//n(\d+)//', str(key[1]))
+        if m is None:
             raise ObservationMissing(f'stream key shape: {key!r}')
+        return int(m.group(1))
 
     def whoami(self) -> Any:
         t = asyncio.current_task()
@@ -265,6 +269,7 @@ class Driver:
                     self.breaks.append(f'event of uid {u} put into the backlog of uid {lq.uid}')
                 self.log('Arrive', u, e)
             self.put[u].append(e)
+            self.arrive_log.append((u, self.seq))
         elif lq.role == 'pending':
             self.log('Spawn', self.coro_uid.get(id(item.coro), -1))
             # does the watcher ever suspend between the stream insertion and the queueing of the job?
@@ -300,7 +305,7 @@ class Driver:
             self.log('PutEOS')
 
     def ident(self, raw: Any) -> tuple[int, int]:
-        return int(raw['object']['metadata']['uid'][1:]), int(raw['object']['spec']['eid'])
+        return int(raw['object']['metadata']['name'][1:]), int(raw['object']['spec']['eid'])
 
     # ------------------------------------------------------------------ the processor given to the watcher
     async def processor(self, *, raw_event: Any, stream_pressure: Any = None, resource_indexed: Any = None,
@@ -399,7 +404,7 @@ class Driver:
 
             async def make_toggle(*a: Any, **kw: Any) -> Any:
                 name = kw.get('name') or ''
-                m = re.search(r"'u(\d+)'", name)
+                m = re.search(r"'u(\d+)'", name) or re.search(r"//n(\d+)//", name)
                 if m and drv.yielded:
                     e = drv.yielded[-1]
                     drv.new1_logged_for = e
@@ -439,9 +444,11 @@ class Driver:
             self.rv_counter += 1
             rv = str(self.rv_counter)
         self.ev_rv[e] = rv
-        raw = {'type': etype, 'object': {'apiVersion': 'kv.test/v1', 'kind': 'Thing',
-                                         'metadata': {'uid': f'u{u}', 'name': f'n{u}', 'namespace': 'ns', 'resourceVersion': rv},
-                                         'spec': {'eid': e}}}
+        md = {'uid': f'u{u}', 'name': f'n{u}', 'namespace': 'ns', 'resourceVersion': rv}
+        if self.cfg.uidless:
+            del md['uid']
+        raw = {'type': etype, 'object': {'apiVersion': 'kv.test/v1', 'kind': 'Thing', 'metadata': md, 'spec': {'eid': e}}}
+        self.ev_type[e] = etype
         return raw, e
 
     def act(self, a: tuple) -> bool:
@@ -457,6 +464,12 @@ class Driver:
             raw, e = self.make_event(u, rv)
             self.fed[u].append(e)
             self.feed.put_nowait((raw, hops, e))
+        elif k == 'G':      # feed an event of a given watch-event type: ('G', u, 'ADDED'|'MODIFIED'|'DELETED'|None[, hops])
+            if self.cancelled:
+                return False
+            raw, e = self.make_event(a[1], None, a[2])
+            self.fed[a[1]].append(e)
+            self.feed.put_nowait((raw, a[3] if len(a) > 3 else 0, e))
         elif k == 'B':
             if self.cancelled:
                 return False
